@@ -17,7 +17,7 @@ namespace BfeVerif.C01
 open BfeVerif.Proto
 
 inductive Op where
-  | init (ws : List Int)
+  | init (ws : List Int) (table : Bool)   -- table: the history runs through the real BalTable (files, loaders)
   | bal (k : Nat) (e : Nat)      -- k calls; every backend in slow start observes `e` seconds elapsed
   | ss (t : Int)                -- SetSlowStart(t)
   | rs (id : Nat)               -- backend.SetRestart(true), as the health checker does
@@ -39,8 +39,9 @@ def parsePairs (s : String) : Option (List (Nat × Int)) :=
 
 def parseOp (s : String) : Option Op :=
   match s.splitOn " " with
-  | ["init", ws] => (parseInts ws).map Op.init
-  | ["ginit", ws] => (parseInts ws).map Op.init   -- same history through BalanceGslb (single sub-cluster)
+  | ["init", ws] => (parseInts ws).map (Op.init · false)
+  | ["ginit", ws] => (parseInts ws).map (Op.init · false)   -- same history through BalanceGslb (single sub-cluster)
+  | ["tinit", ws] => (parseInts ws).map (Op.init · true)    -- … through BalTable: conf FILES → real loaders → Init / BalTableReload → Lookup → Balance
   | ["bal", k] =>
     match k.splitOn "@" with
     | [k] => k.toNat?.map fun k => Op.bal k 0
@@ -59,10 +60,17 @@ def parseOps (s : String) : Option (List Op) := (s.splitOn "|").mapM parseOp
 
 /-! ### the model side -/
 
+def parseField (name : String) (s : String) : Option (List Int) :=
+  match (s.splitOn ";").find? (·.startsWith (name ++ "=")) with
+  | none => none
+  | some f => parseInts (f.drop (name.length + 1)).toString
+
+
 structure St where
   ids : List Nat
   l : List SS
   T : Int := 0
+  table : Bool := false
 
 def joinC (l : List String) : String := if l.isEmpty then "-" else ",".intercalate l
 
@@ -71,39 +79,54 @@ def showPick (ids : List Nat) : Option Nat → String
   | some i => toString (ids.getD i 9999)
 
 /-- `BalanceRR.Update`: walk the old list in order (keep + UpdateWeight, or drop), then append the new members -/
-def updateModel (conf : List (Nat × Int)) (st : St) : St :=
-  let kept := (st.ids.zip st.l).filterMap fun (id, s) =>
-    match conf.lookup id with
-    | some w => some (id, { s with b := updateWeight 100 w s.b })      -- weightSS.final is NOT updated
-    | none => none
-  let added := (conf.filter fun (id, _) => !st.ids.contains id).map fun (id, w) =>
-    (id, { initSS 100 w with restarted := true })                     -- backend.SetRestart(true)
+def updateModel (conf : List (Nat × Int)) (implIds : List Nat) (st : St) : St :=
+  let kept := updateKept 100 conf (st.ids.zip st.l)                  -- weightSS.final is NOT updated
+  let added0 := updateAdded 100 conf (st.ids.zip st.l)               -- backend.SetRestart(true)
+  -- new members are appended in Go MAP ORDER: an arbitrary permutation, taken from the implementation's list
+  let implNew := implIds.filter fun id => added0.any (·.1 == id)
+  let added := if implNew.length == added0.length && added0.all (fun p => implNew.contains p.1) then
+      implNew.filterMap fun id => added0.find? (·.1 == id)
+    else added0
   let all := kept ++ added
   { st with ids := all.map (·.1), l := all.map (·.2) }
 
-def modelOp (st : St) : Op → St × String
-  | .init ws => ({ ids := List.range ws.length, l := ws.map (initSS 100) }, "ok")
+def showDump (st : St) : String :=
+  "c=" ++ joinC (st.l.map fun s => toString s.b.current)
+    ++ ";w=" ++ joinC (st.l.map fun s => toString s.b.weight)
+    ++ ";s=" ++ joinC (st.l.map fun s => if s.inSS then "1" else "0")
+    ++ ";f=" ++ joinC (st.l.map fun s => toString s.final)
+    ++ ";i=" ++ joinC (st.ids.map toString)
+
+/-- the conf loaders (ClusterTableConfCheck) reject a sub-cluster without a backend of weight > 0 -/
+def loaderRejects (c : List (Nat × Int)) : Bool := !(c.any fun p => decide (0 < p.2))
+
+def modelOp (st : St) (res : String) : Op → St × String
+  | .init ws table =>
+    let st' : St := { ids := List.range ws.length, l := ws.map (initSS 100), table := table }
+    (st', "ok;" ++ showDump st')
   | .bal k e =>
     let r := runSS (List.replicate k (st.T, 0, (e : Int) * nsPerSec)) st.l
-    let l' := r.2
-    ({ st with l := l' },
-      "p=" ++ joinC (r.1.map (showPick st.ids)) ++ ";c=" ++ joinC (l'.map fun s => toString s.b.current)
-        ++ ";w=" ++ joinC (l'.map fun s => toString s.b.weight)
-        ++ ";s=" ++ joinC (l'.map fun s => if s.inSS then "1" else "0")
-        ++ ";f=" ++ joinC (l'.map fun s => toString s.final))
+    let st' := { st with l := r.2 }
+    (st', "p=" ++ joinC (r.1.map (showPick st.ids)) ++ ";" ++ showDump st')
   | .av id v =>
     let i := st.ids.idxOf id
     ((if i < st.ids.length then
         { st with l := st.l.modify i fun s => { s with b := { s.b with avail := v } } } else st), "ok")
-  | .upd c => (updateModel c st, "ok")
+  | .upd c =>
+    if st.table && loaderRejects c then (st, "rej;" ++ showDump st)     -- rejected reload: nothing changes
+    else
+      let st' := updateModel c (((parseField "i" res).getD []).map Int.toNat) st
+      (st', "ok;" ++ showDump st')
   | .ss t => ({ st with T := t }, "ok")
   | .rs id =>
     let i := st.ids.idxOf id
     ((if i < st.ids.length then { st with l := st.l.modify i fun s => { s with restarted := true } } else st), "ok")
 
-def modelRun (ops : List Op) : String :=
-  let r := ops.foldl (fun (acc : St × List String) o =>
-    let r := modelOp acc.1 o
+def modelRun (ops : List Op) (impl : String) : String :=
+  let rs := impl.splitOn "|"
+  let rs := rs ++ List.replicate (ops.length - rs.length) ""
+  let r := (ops.zip rs).foldl (fun (acc : St × List String) (o : Op × String) =>
+    let r := modelOp acc.1 o.2 o.1
     (r.1, r.2 :: acc.2)) (({ ids := [], l := [] } : St), [])
   "|".intercalate r.2.reverse
 
@@ -126,7 +149,11 @@ structure OSt where
   pristine : Bool := true          -- no Balance call since Init
   seq : Array (Option Nat) := #[]  -- results since the last change of weights / availability
   fails : List String := []
-  lastC : List Int := []          -- `current` vector reported after the previous segment
+  lastC : List Int := []          -- `current` vector reported after the previous segment (aligned with cfg)
+  table : Bool := false           -- history through BalTable: the loaders reject a conf without a positive weight
+  dIds : List Nat := []           -- last dump of the implementation: ids in LIST order, current, weight
+  dC : List Int := []
+  dW : List Int := []
   fullWindows : Nat := 0           -- number of complete W-windows judged in steady phase with ≥ 2 eligible
   tags : List String := []
 
@@ -159,11 +186,6 @@ def judge (o : OSt) : OSt :=
                  fullWindows := o.fullWindows + (if o.phase == "steady" && elig.length ≥ 2 then n - W + 1 else 0) }
       else fail "window"
 
-def parseField (name : String) (s : String) : Option (List Int) :=
-  match (s.splitOn ";").find? (·.startsWith (name ++ "=")) with
-  | none => none
-  | some f => parseInts (f.drop (name.length + 1)).toString
-
 def parsePicks (s : String) : Option (Array (Option Nat)) :=
   -- s = "p=...;c=...;w=...;s=...;f=..."
   match s.splitOn ";" with
@@ -175,15 +197,42 @@ def parsePicks (s : String) : Option (Array (Option Nat)) :=
     else none
   | _ => none
 
+/-- the dump `c=..;w=..;..;i=..` of a result: ids in list order, current, weight -/
+def parseDump (res : String) : Option (List Nat × List Int × List Int) :=
+  match parseField "i" res, parseField "c" res, parseField "w" res with
+  | some i, some c, some w =>
+    if i.length == c.length && c.length == w.length && i.all (fun x => decide (0 ≤ x)) then some (i.map Int.toNat, c, w) else none
+  | _, _, _ => none
+
+def recordDump (o : OSt) (res : String) : OSt :=
+  match parseDump res with
+  | some (i, c, w) => { o with dIds := i, dC := c, dW := w }
+  | none => { o with fails := "bad-result" :: o.fails }
+
+/-- value of a dumped vector for backend `id` -/
+def atId (ids : List Nat) (v : List Int) (id : Nat) : Option Int := (ids.zip v).lookup id
+
+/-- sum of the eligible configured weights (the period) -/
+def periodOf (cfg : List Ent) : Nat :=
+  ((cfg.filter fun e => e.avail && decide (0 < e.w)).foldl (fun (s : Int) (e : Ent) => s + e.w) 0).toNat
+
 def oracleOp (o : OSt) (op : Op) (res : String) : OSt :=
   match op with
-  | .init ws =>
+  | .init ws table =>
     let o := judge o
+    let o := recordDump o res
+    -- Init contract: list order = conf order, weight = current = conf×100
+    let okInit := o.dIds == List.range ws.length && o.dW == ws.map (· * 100) && o.dC == ws.map (· * 100)
     { o with cfg := (List.range ws.length).zip ws |>.map (fun (i, w) => ({ id := i, w := w, avail := true } : Ent)),
-             phase := "steady", pristine := true, seq := #[] }
+             phase := "steady", pristine := true, seq := #[], table := table,
+             fails := if okInit then o.fails else "init-contract" :: o.fails }
   | .bal k e =>
-    match parsePicks res, parseField "w" res with
-    | some ps, some wv =>
+    match parsePicks res, parseDump res with
+    | some ps, some (dI, dCv, dWv) =>
+      let o := { o with dIds := dI, dC := dCv, dW := dWv }
+      -- align the reported vectors with the configuration BY ID (the list order is the implementation's business)
+      let wv := o.cfg.filterMap fun x => atId dI dWv x.id
+      let members := dI.length == o.cfg.length && wv.length == o.cfg.length
       let active := decide (o.T > 0) && o.cfg.any fun x => x.pend || x.ramp
       -- slow-start bookkeeping from the op alone: a pending restart starts ramping at the first call
       -- (it observes ~0 s), every ramping backend is finished by a call that observes e ≥ slowStartTime
@@ -204,7 +253,7 @@ def oracleOp (o : OSt) (op : Op) (res : String) : OSt :=
         else if x.staleRamp then some "slowstart-stale-final"
         else if o.phase == "slowstart" || active then some "slowstart-weight"
         else some "weight")
-      let wfails := if wv.length == cfg1.length then wfails else ["bad-result"]
+      let wfails := if members then wfails else ["list-members"]
       if active then
         { o1 with cfg := cfg1, phase := "slowstart", seq := #[], pristine := false, lastC := [],
                   fails := wfails.reverse ++ o1.fails, tags := "ss" :: o1.tags }
@@ -212,7 +261,7 @@ def oracleOp (o : OSt) (op : Op) (res : String) : OSt :=
         -- consequences of C01_sum_heals / C01_offorbit_bounded_partial that must hold in EVERY phase once at least
         -- one call was made since the last change (o.seq non-empty) and slow start is over:
         --   Σ current = Σ weight over the eligible members, and  W·nᵢ ≤ k·wᵢ + max 0 (cᵢ − wᵢ + W − 1)
-        let cv := (parseField "c" res).getD []
+        let cv := o.cfg.filterMap fun x => atId dI dCv x.id
         let el := (o.cfg.zip (o.lastC.zip cv)).filter fun (x, _) => x.avail && decide (0 < x.w)
         let W : Int := el.foldl (fun (a : Int) (p : Ent × Int × Int) => a + p.1.w * 100) 0
         let k : Int := ps.size
@@ -238,18 +287,55 @@ def oracleOp (o : OSt) (op : Op) (res : String) : OSt :=
     | none => o
     | some e =>
       if e.avail == v then o else
+      -- a flip exactly at a period boundary of a steady run: the state is the initial state again (C01_period), so the
+      -- eligible members are in the state Init gives them and the windows stay exact (C01_window_filtered)
+      let W := periodOf o.cfg
+      let boundary := o.phase == "steady" && (o.pristine || (W > 0 && o.seq.size % W == 0))
       let o := judge o
       { o with cfg := o.cfg.map (fun e => if e.id == id then { e with avail := v } else e),
-               phase := if o.pristine then o.phase else "flip", tags := "flip" :: o.tags }
+               phase := if boundary then o.phase else "flip",
+               tags := (if boundary && !o.pristine then "flip-boundary" else "flip") :: o.tags }
   | .upd c =>
+    let oldI := o.dIds
+    let oldC := o.dC
+    let oldW := o.dW
+    let o := recordDump o res
     let same := c.length == o.cfg.length && o.cfg.all fun e => c.lookup e.id == some e.w
-    if same then { o with tags := "upd-same" :: o.tags } else
+    if o.table && loaderRejects c then
+      -- a REJECTED reload (the loaders refuse a sub-cluster without a positive weight) must change nothing
+      let ok := res.startsWith "rej;" && o.dIds == oldI && o.dC == oldC && o.dW == oldW
+      { o with tags := "upd-rejected" :: o.tags, fails := if ok then o.fails else "rejected-reload-changed-state" :: o.fails }
+    else if same then
+      -- a reload with the IDENTICAL conf must be a no-op: same list order, same weights, same currents
+      -- (only a member of weight ≤ 0 gets current = 0, it is ineligible anyway)
+      let expC := (oldI.zip oldC).map fun (id, cur) =>
+        match c.lookup id with
+        | some w => if w ≤ 0 then 0 else cur
+        | none => cur
+      let ok := res.startsWith "ok;" && o.dIds == oldI && o.dW == oldW && o.dC == expC
+      { o with tags := "upd-same" :: o.tags, fails := if ok then o.fails else "reload-same-not-noop" :: o.fails }
+    else
+    -- Update contract: surviving members keep their relative order and their current (0 if the new weight is ≤ 0),
+    -- removed members are gone, new members follow (in any order) with current = weight; weight = conf×100 for all
+    let keptIds := oldI.filter fun id => (c.lookup id).isSome
+    let newIds := (c.map (·.1)).filter fun id => !oldI.contains id
+    let orderOk := o.dIds.take keptIds.length == keptIds &&
+      (o.dIds.drop keptIds.length).length == newIds.length && newIds.all fun id => (o.dIds.drop keptIds.length).contains id
+    let valsOk := o.dIds.all fun id =>
+      match c.lookup id with
+      | none => false
+      | some w =>
+        atId o.dIds o.dW id == some (w * 100) &&
+        (if oldI.contains id then atId o.dIds o.dC id == (if w ≤ 0 then some 0 else atId oldI oldC id)
+         else atId o.dIds o.dC id == some (w * 100))
+    let ok := res.startsWith "ok;" && orderOk && valsOk
     let o := judge o
     let kept := o.cfg.filterMap fun e => (c.lookup e.id).map fun w =>
       { e with w := w, stale := e.stale || (w != e.w) }
     let added := (c.filter fun (id, _) => !(o.cfg.any (·.id == id))).map fun (id, w) =>
       ({ id := id, w := w, avail := true, pend := true } : Ent)
-    { o with cfg := kept ++ added, phase := "reload", tags := "upd" :: o.tags }
+    { o with cfg := kept ++ added, phase := "reload", tags := "upd" :: o.tags, lastC := [],
+             fails := if ok then o.fails else "reload-contract" :: o.fails }
 
 def oracleRun (ops : List Op) (impl : String) : OSt :=
   let rs := impl.splitOn "|"
@@ -262,7 +348,7 @@ def run (op impl : String) : Ans :=
   match parseOps op with
   | none => { model := "bad-op", verdict := "skip" }
   | some ops =>
-    let m := modelRun ops
+    let m := modelRun ops impl
     if impl == "timing-unstable" then { model := impl, verdict := "skip", tags := ["timing-unstable"] } else
     if impl.startsWith "PANIC" || impl.startsWith "HANG" then
       { model := m, verdict := "FAIL:crash", tags := ["crash"] }
@@ -270,13 +356,13 @@ def run (op impl : String) : Ans :=
     let o := oracleRun ops impl
     let fs := dedup o.fails.reverse
     let n := match ops.head? with
-      | some (.init ws) => ws.length
+      | some (.init ws _) => ws.length
       | _ => 0
     let sz := if n == 0 then "n0" else if n == 1 then "n1" else if n ≤ 4 then "n2-4" else "n5+"
     { model := m
       verdict := match fs with
         | [] => "ok"
         | f :: _ => "FAIL:" ++ f
-      tags := [sz] ++ (if op.startsWith "ginit" then ["gslb"] else []) ++ dedup o.tags ++ (if o.fullWindows > 0 then ["nt"] else []) }
+      tags := [sz] ++ (if op.startsWith "ginit" then ["gslb"] else if op.startsWith "tinit" then ["table"] else []) ++ dedup o.tags ++ (if o.fullWindows > 0 then ["nt"] else []) }
 
 end BfeVerif.C01
